@@ -525,7 +525,7 @@ func (g *progGen) stmt() string {
 			return "\tRESB\t" + fmt.Sprint(r.Range(2, 9)) + "*" + fmt.Sprint(r.Range(2, 9)) + "-" + fmt.Sprint(r.Range(0, 3))
 		}
 		if r.Chance(1, 8) {
-			return "\tRESB\t" + pick(r, []string{"4096", "5000", "9000", "70000"})
+			return "\tRESB\t" + pick(r, []string{"4096", "5000", "9000", "70000", "65536", "65535", "131072", "32768", "0"})
 		}
 		if r.Chance(1, 2) {
 			return "\tRESB\t" + fmt.Sprint(r.Range(1, 40))
